@@ -179,7 +179,7 @@ def norm(d):
 def job_view(j):
     return {"name": j.name, "command": j.command, "blocked_by": sorted(j.get_blocking_jobs()),
             "cancel": j.cancel_on_blocking_job_failure, "group": j.submission_group, "est": j.estimated_run_minutes,
-            "ext": norm(j.model.ext), "append_job_name": j.model.append_job_name, "append_output_dir": j.model.append_output_dir,
+            "ext": json.loads(json.dumps(j.model.ext, default=str)), "append_job_name": j.model.append_job_name, "append_output_dir": j.model.append_output_dir,
             "job_id": j.model.job_id}
 
 
